@@ -5,7 +5,7 @@ from .. import core, gen, impl_thr, scen
 from . import c01
 
 ID = "C08"
-BUDGET = {"quick": 600, "thorough": 60000}
+BUDGET = {"quick": 2400, "thorough": 300000}
 RULE = ("scenario = scheduler (naive/any offset) with 1-2 jobs of all five types incl. batched lists (1-3 entries, own offsets), "
         "skip_missing on (50%) or off, start on/around an occurrence; 2-10 polls with gaps < P, = P, >> P, exactly on an "
         "occurrence, many consecutive catch-up polls at one instant, some forced; non-trivial = a poll that finds the job "
